@@ -80,6 +80,26 @@ def open_family(rep, d, tier):
          ["module m {\n  module src {\n    let big = (from t | filter a > 0)\n  }\n  let t3 = (from src.big | select {k, a})\n}\nfrom m.t3 | sort {k, a}",
           "module src {\n  let big = (from t | filter a < 0)\n}\nmodule m {\n  module src {\n    let big = (from t | filter a > 0)\n  }\n  let t3 = (from src.big | select {k, a})\n}\nfrom m.t3 | sort {k, a}"]),
     ]
+    # a call across a module boundary: the arguments of a call belong to the caller - a bare name in an argument means what
+    # it means at the call site, whatever the callee's module declares under that name (seeded change c06g-1)
+    mods += [
+        ("let lim = 7\nfrom t | derive {y = lim * 2} | select {k, y}",
+         ["let lim = 7\nmodule m {\n  let lim = 5\n  let f = x -> x * 2\n}\nfrom t | derive {y = m.f lim} | select {k, y}",
+          "let lim = 7\nmodule m {\n  let lim = 5\n  let f = x -> x * 2\n}\nfrom t | derive {y = (lim | m.f)} | select {k, y}",
+          "let lim = 7\nmodule m {\n  let lim = 5\n  let f = x s:1 -> x * s\n}\nfrom t | derive {y = m.f lim s:2} | select {k, y}",
+          "let lim = 7\nmodule m {\n  let lim = 5\n  let f = x s:1 -> s * 2\n}\nfrom t | derive {y = m.f 0 s:lim} | select {k, y}",
+          "let lim = 7\nmodule m {\n  module n {\n    let lim = 5\n    let f = x -> x * 2\n  }\n}\nfrom t | derive {y = m.n.f lim} | select {k, y}"]),
+        ("from t | derive {y = a * 2} | select {k, y}",
+         ["module m {\n  let a = 5\n  let f = x -> x * 2\n}\nfrom t | derive {y = m.f a} | select {k, y}",
+          "module m {\n  let a = 5\n  let f = x -> x * 2\n}\nfrom t | derive {y = (a | m.f)} | select {k, y}",
+          "module m {\n  let b = 5\n  let f = x y -> x * y\n}\nfrom t | derive {y = m.f a 2} | select {k, y}"]),
+        ("from t | derive {y = 5 * 2} | select {k, y}",
+         ["let f = x -> x * 2\nlet lim = 7\nmodule m {\n  let lim = 5\n  let j = f lim\n}\nfrom t | derive {y = m.j} | select {k, y}",
+          "module g {\n  let f = x -> x * 2\n  let lim = 7\n}\nmodule m {\n  let lim = 5\n  let j = g.f lim\n}\nfrom t | derive {y = m.j} | select {k, y}"]),
+        ("from t | filter a > 0 | sort {-a, k} | take 3",
+         ["let topn = n rel<relation> -> (rel | sort {-a, k} | take n)\nmodule m {\n  let pos = (from t | filter a > 0)\n  let top = (pos | topn 3)\n}\nfrom m.top",
+          "module fn {\n  let topn = n rel<relation> -> (rel | sort {-a, k} | take n)\n}\nlet pos = (from t | filter a > 0)\nfrom pos | fn.topn 3"]),
+    ]
     for i, (b_, vs) in enumerate(mods):
         srcs.append({"id": f"md{i}", "src": b_})
         for j, v_ in enumerate(vs):
